@@ -976,10 +976,10 @@ class Terminal:
                         else ODCmd.DOWN_INIT.value,
                         index, 1 if subindex is None else subindex,
                         len(data), data=data[:stop])
-                type, data = await self.mbx_recv()
+                type, rdata = await self.mbx_recv()
                 if type is not MBXType.COE:
                     raise EtherCatError(f"expected CoE, got {type}")
-                coecmd, sdocmd, idx, subidx = unpack("<HBHB", data[:6])
+                coecmd, sdocmd, idx, subidx = unpack("<HBHB", rdata[:6])
                 if coecmd >> 12 != CoECmd.SDORES.value:
                     raise EtherCatError(f"expected CoE SDORES, got {coecmd>>12:x}")
                 if idx != index or subidx != (
